@@ -127,13 +127,16 @@ RmwlDrift == LET lens == WriterLens(Cur.len, Cur.mf)
              If(got # want, "writer splits differently from the transcription")
 
 -----------------------------------------------------------------------------
-LineBad == CASE Cur.ev = "enc" -> EncBad [] Cur.ev = "dec" -> DecBad [] Cur.ev = "cls" -> ClsBad
+\* a panic of a codec function is never a rejection
+PanicBad == {"codec function panicked instead of rejecting its input"}
+
+LineBad == CASE Cur.ev = "panic" -> PanicBad [] Cur.ev = "enc" -> EncBad [] Cur.ev = "dec" -> DecBad [] Cur.ev = "cls" -> ClsBad
              [] Cur.ev = "rml" -> RmlBad [] Cur.ev = "rmb" -> RmbBad [] Cur.ev = "rmw" -> RmwBad
              [] Cur.ev = "rmwl" -> RmwlBad [] OTHER -> {}
 LineDrift == CASE Cur.ev = "dec" -> DecDrift [] Cur.ev = "rmwl" -> RmwlDrift [] OTHER -> {}
 
 Init == /\ l = 1 /\ bad = {} /\ dev = {} /\ drift = {}
-        /\ stats = [enc |-> 0, dec |-> 0, cls |-> 0, rml |-> 0, rmb |-> 0, rmw |-> 0, rmwl |-> 0, reset |-> 0,
+        /\ stats = [panic |-> 0, enc |-> 0, dec |-> 0, cls |-> 0, rml |-> 0, rmb |-> 0, rmw |-> 0, rmwl |-> 0, reset |-> 0,
                     dec_ok |-> 0, dec_refused |-> 0, lines |-> 0]
 
 Consume == /\ l <= N
